@@ -112,8 +112,8 @@ def checkStructure (P : Prog) (f : Func) : Except Fault (List Nat) :=
       | none => .ok bs
 
 /-- analysis limits of the (untrusted) search -/
-def maxStates : Nat := 200000
-def maxDepth : Nat := 600
+def maxStates : Nat := 60000
+def maxDepth : Nat := 96
 
 /-- bookkeeping of the untrusted search: first depth seen per pc and the first edge that reaches a
 pc with another depth (diagnosis of an inconsistent join) -/
